@@ -5,7 +5,9 @@
 \* checked against ArtExpect (the property-level expectation) for EVERY picture size, chunk limit, source
 \* combination, MIME presence and scripted error within the bounds (C17).
 EXTENDS World
-CONSTANTS MaxP, MaxK, Acks
+CONSTANTS MaxP, MaxK, Acks,
+          Mut   \* "" = as coded; seeded model mutants (vacuity guards): "limit_offset" (offset advanced by the chunk limit instead of
+                \* the bytes received), "empty_is_none" (a zero-byte picture counts as no picture), "no_fallback" (ACK 5 is not a fallback)
 
 VARIABLES pic, pc, got, expected, embedded, hasMime, reqs, result
 vars == <<pic, pc, got, expected, embedded, hasMime, reqs, result>>
@@ -24,8 +26,8 @@ Done(o, code) == pc' = "done" /\ result' = [o |-> o, code |-> code]
 Embedded0 ==
   /\ pc = "embedded0" /\ reqs' = Append(reqs, <<TRUE, 0>>)
   /\ LET r == Reply(TRUE, 0) IN
-     CASE r.k = "some" -> /\ got' = r.n /\ expected' = r.size /\ embedded' = TRUE /\ hasMime' = r.mime /\ pc' = "loop" /\ UNCHANGED result
-       [] r.k = "none" \/ (r.k = "err" /\ r.code = 5) -> /\ pc' = "file0" /\ UNCHANGED <<got, expected, embedded, hasMime, result>>
+     CASE r.k = "some" /\ ~(Mut = "empty_is_none" /\ r.size = 0) -> /\ got' = r.n /\ expected' = r.size /\ embedded' = TRUE /\ hasMime' = r.mime /\ pc' = "loop" /\ UNCHANGED result
+       [] r.k = "none" \/ (r.k = "err" /\ r.code = 5 /\ Mut # "no_fallback") \/ (r.k = "some" /\ Mut = "empty_is_none" /\ r.size = 0) -> /\ pc' = "file0" /\ UNCHANGED <<got, expected, embedded, hasMime, result>>
        [] OTHER -> /\ Done("ack", r.code) /\ UNCHANGED <<got, expected, embedded, hasMime>>
   /\ UNCHANGED pic
 File0 ==
@@ -40,7 +42,7 @@ Loop ==
   /\ IF got >= expected THEN /\ Done("art", 0) /\ UNCHANGED <<got, expected, embedded, hasMime, reqs>>
      ELSE /\ reqs' = Append(reqs, <<embedded, got>>)
           /\ LET r == Reply(embedded, got) IN
-             CASE r.k = "some" -> /\ got' = got + r.n /\ UNCHANGED <<pc, expected, embedded, hasMime, result>>
+             CASE r.k = "some" -> /\ got' = got + (IF Mut = "limit_offset" THEN pic.limit ELSE r.n) /\ UNCHANGED <<pc, expected, embedded, hasMime, result>>
                [] r.k = "none" -> /\ Done("none", 0) /\ UNCHANGED <<got, expected, embedded, hasMime>>
                [] OTHER -> /\ Done("ack", r.code) /\ UNCHANGED <<got, expected, embedded, hasMime>>
   /\ UNCHANGED pic
